@@ -12,6 +12,7 @@ import (
 	"verif/checks/c03"
 	"verif/checks/c09"
 	"verif/checks/c10"
+	"verif/checks/c11"
 	"verif/checks/c12"
 	"verif/checks/c13"
 	"verif/checks/c14"
@@ -34,6 +35,7 @@ var checks = map[string]check{
 	"C02": {"model_checking", c02.Run},
 	"C09": {"model_checking", c09.Run},
 	"C10": {"model_checking", c10.Run},
+	"C11": {"model_checking", c11.Run},
 	"C12": {"fault_enumeration", c12.Run},
 	"C13": {"model_checking", c13.Run},
 	"C14": {"model_checking", c14.Run},
@@ -57,6 +59,11 @@ func main() {
 	id := strings.ToUpper(os.Args[1])
 	if id == "WORKER" {
 		engine.WorkerMain(os.Args[2:])
+		return
+	}
+	if id == "C11RACE" {
+		n, _ := strconv.Atoi(os.Args[2])
+		c11.RaceBody(n)
 		return
 	}
 	if id == "C02RACE" {
